@@ -7,6 +7,12 @@ ROOT = os.path.dirname(os.path.dirname(os.path.abspath(__file__)))
 
 # id -> (level, design section, technique, level text, level note)
 CLAIMED = {
+    "C01": ("exploration", "DESIGN.md 4 (C01)", "seeded deterministic simulation: pack/reopen/extract histories on a simulated disk under short reads/writes, EINTR and memory-fill swarm, checked against an in-memory file-set model; refusal worlds checked with before/after disk snapshots",
+            "Seeded worlds of 0..40 input files (all size residues mod 4, sizes around the 128 KiB copy chunk, names over letters/digits/punctuation in both cases, all name-table residues, 1-3 directories, five path spellings, permuted order) packed with VolFile::CreateArchive on a tmpfs scratch disk; the reopened archive is driven through seeded listing/lookup/stream/extract histories and compared with the model; duplicate-name and self-inclusion worlds must be refused with the disk snapshot unchanged. Sampling evidence, not proof.",
+            "Trusts the file-set model and the lower-case-folding name order in sim/models/refvol.h; behaviour under EIO/ENOSPC is not asserted."),
+    "C02": ("exploration", "DESIGN.md 4 (C02)", "seeded deterministic simulation with an independent VOL encoder/decoder as oracle: library-written archives parsed from the durable bytes; reference-encoded archives (spare slots, LZH/RLE/LZ members) opened by the library",
+            "Two directions: every archive written in vol-roundtrip runs is parsed byte by byte by a strict independent decoder (tiling, names, blocks, search order); archives emitted by the independent encoder with 0..3 spare index slots and stored/LZH/RLE/LZ members are opened with VolFile and listed, streamed and extracted (LZH members must extract to the independent LZH decoder's output). Sampling evidence, not proof.",
+            "Trusts sim/models/refvol.h and reflzh.h (written from the public format description, no code shared with /repo/src)."),
     "C12": ("exploration", "DESIGN.md 4 (C12), 2.3", "seeded deterministic simulation: reader actors vs byte-vector/cursor reference model, boundary/wrap argument classes, transparent I/O faults",
             "Seeded search over operation histories (reads, partial reads, peeks, seeks, typed helpers) on memory readers, memory slices, file slices and nested slices; every step is compared with a reference cursor model, destination buffers are exactly sized heap blocks under ASan, refused operations are checked for atomicity on the following steps. Sampling evidence, not proof.",
             "Trusts the reference model in sim/scen/stream_actors.cpp and ASan/UBSan/_GLIBCXX_ASSERTIONS for memory errors; file-backed actors run over real libstdc++ filebuf on tmpfs with injected short reads and EINTR."),
